@@ -63,7 +63,12 @@ class ResampledLowLevelWCS(BaseWCSWrapper):
 
     def world_to_pixel_values(self, *world_arrays):
         underlying_pixel_arrays = self._wcs.world_to_pixel_values(*world_arrays)
+        # A WCS with a single pixel dimension returns a bare array rather than a tuple.
+        if self.pixel_n_dim == 1:
+            underlying_pixel_arrays = (underlying_pixel_arrays,)
         top_pixel_arrays = self._underlying_to_top_pixels(np.asarray(underlying_pixel_arrays))
+        if self.pixel_n_dim == 1:
+            return top_pixel_arrays[0]
         return tuple(array for array in top_pixel_arrays)
 
     @property
